@@ -155,18 +155,8 @@ class Change(Aggregator):
     def __call__(self, array, axis=None):
         if axis is None:
             return array.flatten()[-1] - array.flatten()[0]
-        elif axis == 0:
-            return array[-1, ...] - array[0, ...]
-        elif axis == 1:
-            return array[:, -1, ...] - array[:, 0, ...]
-        elif axis == 2:
-            return array[:, :, -1, ...] - array[:, :, 0, ...]
-        elif axis == 3:
-            return array[:, :, :, -1, ...] - array[:, :, :, 0, ...]
-        elif axis == 4:
-            return array[:, :, :, :, -1, ...] - array[:, :, :, :, 0, ...]
-        else:
-            raise NotImplementedError(f"This function not implemented for axis {axis}")
+        return np.take(array, -1, axis=axis) - np.take(array, 0, axis=axis)
+
 
 class AbsChange(Aggregator):
     """Absolute value of difference between the last and the first element. Is most useful
@@ -176,15 +166,4 @@ class AbsChange(Aggregator):
     def __call__(self, array, axis=None):
         if axis is None:
             return np.abs(array.flatten()[-1] - array.flatten()[0])
-        elif axis == 0:
-            return np.abs(array[-1, ...] - array[0, ...])
-        elif axis == 1:
-            return np.abs(array[:, -1, ...] - array[:, 0, ...])
-        elif axis == 2:
-            return np.abs(array[:, :, -1, ...] - array[:, :, 0, ...])
-        elif axis == 3:
-            return np.abs(array[:, :, :, -1, ...] - array[:, :, :, 0, ...])
-        elif axis == 4:
-            return np.abs(array[:, :, :, :, -1, ...] - array[:, :, :, :, 0, ...])
-        else:
-            raise NotImplementedError(f"This function not implemented for axis {axis}")
+        return np.abs(np.take(array, -1, axis=axis) - np.take(array, 0, axis=axis))
